@@ -15,8 +15,8 @@ exec 9>$LOCK; flock 9     # held to the end: work dir and target dir belong to o
 rm -rf "$W"; mkdir -p "$W"
 # the committed state of /repo (not its working tree, which another run may have patched at this moment)
 mkdir -p "$W/repo" && git -C /repo archive HEAD | tar -x -C "$W/repo"
-rsync -a --exclude target /verif/harness/ "$W/harness/"
-sed -i "s#path = \"/repo\"#path = \"$W/repo\"#" "$W/harness/Cargo.toml"
+rsync -a --exclude target ${HARNESS_SRC:-/verif/harness}/ "$W/harness/"
+sed -i "s#path = \"[^\"]*repo\"#path = \"$W/repo\"#" "$W/harness/Cargo.toml"
 rm -f "$W/harness/.cargo/config.toml"
 if (cd "$W/repo" && patch -p1 -s --dry-run < "$PATCH" >/dev/null 2>&1); then
   (cd "$W/repo" && patch -p1 -s < "$PATCH")
